@@ -703,6 +703,18 @@ func areaShapeSpec(c *Ctx) {
 		c.Stat("obligation: trailing skipped glyphs (format)", what[:9])
 		emit(sc, "trailing skipped family")
 	}
+	// the families "contextual nested in contextual" and "nested lookup with the parent's flags and
+	// another mark filtering set" (area_shape.go), every run; one sequence per line
+	for i := 0; i < shpNestedCtxCount; i++ {
+		sc, what := shpNestedCtxCase(i)
+		c.Stat("obligation: contextual nested in contextual (parent x child format)", what)
+		emit(sc, "nested contextual family")
+	}
+	for i := 0; i < shpMarkSetCount; i++ {
+		sc, what := shpMarkSetCase(i)
+		c.Stat("obligation: nested lookup with the parent's flags and another filtering set", what[:9])
+		emit(sc, "mark filtering set family")
+	}
 	for c.evals < c.N && timeouts < maxTimeouts {
 		g.wild = false
 		g.gpos = false
